@@ -161,6 +161,12 @@ HARNESSES = [
         strength="F in configuration, flush mode, bit alignment, pending bits, adler, block index; block body empty",
         note="OutputBufferOxide::put_bits replaced by a small-buffer model (checked equal to the real put_bits by k_put_bits_model_equiv, and the real one proved in Verus V-def-bits); CallbackOxide::flush_output by a recording model (real one: K-flushout); <[u16]>::fill by its std contract model; in k_flush_block_finish_static compress_block by its empty-body contract model (ASSUMED: the harness for the real static-table build, k_compress_block_static_empty, did not finish in 50 min and is not registered)")
       for n in ("k_flush_block_markers", "k_flush_block_finish_static")],
+] + [
+    H(n, "K-flushmark", ["C01", "C02", "C08", "C10"], fns=["flush_block (stored-block body)", "OutputBufferOxide::write_bytes", "OutputBufferOxide::put_bits", "OutputBufferOxide::pad_to_bytes", "CallbackBuf::flush_output", "LZOxide::init_flag"], cost=60, timeout=900,
+      strength=st, note="no function replaced; the window is laid out as the engines leave it (first 257 bytes mirrored behind the window end, mirror slot 32768+257 at its allocation value)")
+    for n, st in (("k_flush_block_stored_body_wrap", "B(one concrete case: a 260-byte block starting 2 bytes before the window end, i.e. spilling exactly 258 bytes past it; fixed non-zero byte pattern; forced-raw Raw-format compressor, flush None)"),
+                  ("k_flush_block_stored_body_short_spill", "B(one concrete case: a 33-byte block starting 7 bytes before the window end; fixed non-zero byte pattern; forced-raw Raw-format compressor, flush None)"))
+] + [
     H("k_put_bits_model_equiv", "K-flushmark", ["C02", "C10", "C12"], fns=["OutputBufferOxide::put_bits"], cost=20),
     # ---- K-fasttail ----
     H("k_fast_tail", "K-fasttail", ["C01", "C02", "C12"], fns=["compress_fast (tail path: fewer than 4 bytes with a flush requested)"], cost=70, timeout=900,
@@ -221,7 +227,7 @@ VERUS_UNITS = [
     VU("V-def-bits", ["C02", "C10", "C12"], ["OutputBufferOxide::put_bits", "OutputBufferOxide::pad_to_bytes", "OutputBufferOxide::put_bits_no_flush", "OutputBufferOxide::write_bytes",
                                              "OutputBufferOxide::save", "OutputBufferOxide::load", "OutputBufferOxide::is_byte_aligned", "BitBuffer::put_fast"]),
     VU("V-pushdict", ["C05", "C13"], ["push_dict_out"]),
-    VU("V-def-lz", ["C02", "C10"], ["LZOxide::write_code", "LZOxide::plant_flag", "LZOxide::consume_flag"]),
+    VU("V-def-lz", ["C02", "C10"], ["LZOxide::write_code", "LZOxide::plant_flag", "LZOxide::consume_flag", "LZOxide::get_flag", "LZOxide::init_flag", "record_literal", "record_match"]),
     VU("V-flushout", ["C02", "C14"], ["CallbackBuf::flush_output"]),
     VU("V-inf-leaf", ["C04", "C06", "C07", "C19"], ["undo_bytes", "num_extra_bits_for_distance_code"]),
 ]
